@@ -82,7 +82,11 @@ func init() {
 		"ctx.Entry()":         {"ctx_entry", "iface"},
 		"ctx.IsBlocked()":     {"ctx_blocked", "bool"}}
 	refs := []string{"*TokenResult"}
-	refCalls := map[string]hint{"IsBlocked": {"is_blocked", "bool"}, "blockErr": {"block_err_of", "iface"}}
+	// every way the code may read a token result through its reference: a rewrite that uses another
+	// getter still translates (and its lemma then has to hold)
+	refCalls := map[string]hint{"IsBlocked": {"is_blocked", "bool"}, "IsPass": {"is_pass", "bool"},
+		"Status": {"status_of", "uint8"}, "status": {"status_of", "uint8"},
+		"blockErr": {"block_err_of", "iface"}, "BlockError": {"block_err_of", "iface"}}
 	stores := map[string]act{
 		"ctx.RuleCheckResult": {Tag: chStoreResult, Keep: []int{0}},
 		"ctx.outcomeReported": {Tag: chStoreReported, Keep: []int{0}}}
@@ -163,30 +167,41 @@ const (
 
 func init() {
 	exitHints := map[string]hint{
-		"e.ctx":       {"", "opaque"},
-		"options.err": {"opt_err", "iface"},
-		"e.sc":        {"sc", "iface"}}
+		"e.ctx":                        {"", "opaque"},
+		"options.err":                  {"opt_err", "iface"},
+		"e.sc":                         {"sc", "iface"},
+		"e.isExited()":                 {"exited", "bool"},
+		"atomic.LoadUint32(&e.exited)": {"exited_word", "uint32"}}
+	// one action table for the function and its literals: code moved between them still translates
+	// (and the lemma of the part it left / entered then has to hold)
+	exitActs := map[string]act{
+		"e.exitCtl.Do": {Tag: exOnce}, "defer": {Tag: chDefer},
+		"ctx.SetError": {Tag: exSetError, Keep: []int{0}}, "e.sc.exit": {Tag: exChainExit},
+		"atomic.StoreUint32":    {Tag: exStoreExited, Keep: []int{1}},
+		"e.sc.RefurbishContext": {Tag: exRefurbish},
+		"recover":               {Tag: chRecover, Ret: hint{"panic_val", "iface"}}}
 	exit := func(name string, t target) target {
 		t.Dir, t.Func, t.Name, t.Hints = "core/base", "SentinelEntry.Exit", name, exitHints
+		acts := map[string]act{}
+		for k, v := range exitActs {
+			acts[k] = v
+		}
+		for k, v := range t.Acts {
+			acts[k] = v
+		}
+		t.Acts = acts
 		return t
 	}
 	targets = append(targets,
 		// ---- SentinelEntry.Exit: options, nil context, everything else inside the Once ----
-		exit("entry_Exit", target{
-			Acts:      map[string]act{"e.exitCtl.Do": {Tag: exOnce}, "defer": {Tag: chDefer}},
-			LoopMarks: map[int]act{1: {Tag: exLoopOpts}}}),
+		exit("entry_Exit", target{LoopMarks: map[int]act{1: {Tag: exLoopOpts}}}),
 		// the function run by the Once: defer, error of this exit, handlers, chain exit
-		exit("entry_Exit_once", target{Lit: 1,
-			Acts: map[string]act{"defer": {Tag: chDefer}, "ctx.SetError": {Tag: exSetError, Keep: []int{0}},
-				"e.sc.exit": {Tag: exChainExit}},
-			LoopMarks: map[int]act{1: {Tag: exLoopHandlers}}}),
+		exit("entry_Exit_once", target{Lit: 1, LoopMarks: map[int]act{1: {Tag: exLoopHandlers}}}),
 		// ONE iteration of the handler loop: a handler's error does not stop the loop
 		exit("entry_Exit_handler_step", target{Lit: 1, LoopBody: 1, LoopAny: true,
 			Acts: map[string]act{"<range>": {Tag: exHandler, Ret: hint{"handler_err", "iface"}}}}),
 		// its deferred function: recover, exited := 1, context back to the pool - in that order
-		exit("entry_Exit_deferred", target{Lit: 2,
-			Acts: map[string]act{"atomic.StoreUint32": {Tag: exStoreExited, Keep: []int{1}},
-				"e.sc.RefurbishContext": {Tag: exRefurbish}, "recover": {Tag: chRecover, Ret: hint{"panic_val", "iface"}}}}),
+		exit("entry_Exit_deferred", target{Lit: 2}),
 		// ---- api.entry ----
 		target{Dir: "api", Func: "entry", Name: "api_entry",
 			RefTypes: []string{"*base.SentinelEntry", "*base.BlockError"},
